@@ -6,11 +6,13 @@ import (
 	"flag"
 	"fmt"
 	"os"
+	"sort"
 	"strings"
 	"time"
 
 	vh "github.com/goptics/varmq/internal/vharness"
 	"github.com/goptics/varmq/internal/vrt"
+	"github.com/goptics/varmq/internal/vrt/litmus"
 )
 
 type sample struct {
@@ -71,8 +73,12 @@ func main() {
 	out := flag.String("out", "", "result file (JSON)")
 	replay := flag.String("replay", "", "replay file: run exactly this schedule")
 	stateOut := flag.String("statekeys", "", "file to dump state fingerprints to")
+	lit := flag.String("litmus", "", "run the shim litmus suite exhaustively; write the explored outcome sets to this file")
 	flag.Parse()
 	vrt.SetExit(os.Exit)
+	if *lit != "" {
+		os.Exit(runLitmus(*lit))
+	}
 	if *list {
 		json.NewEncoder(os.Stdout).Encode(vh.Sorted())
 		return
@@ -285,4 +291,62 @@ func doReplay(path string) int {
 		fmt.Println("NOT-REPRODUCED")
 	}
 	return rc
+}
+
+// runLitmus explores every schedule of every litmus program (no bound) and compares the set of outcomes
+// with the hand-derived allowed set: it must be equal (no behaviour invented, none missing).
+func runLitmus(out string) int {
+	vrt.OptPoolChoice = true
+	vrt.OptStates = false
+	explored := map[string][]string{}
+	bad := 0
+	var execs int64
+	for _, p := range litmus.Programs {
+		p := p
+		seen := map[string]bool{}
+		e := &vrt.Explorer{Mode: vrt.PB, NShards: 1}
+		e.New = func() *vrt.Instance {
+			res, done := "", false
+			in := &vrt.Instance{}
+			in.Body = func() { res = p.Run(); done = true }
+			in.Check = func(x *vrt.Exec) ([]vrt.Violation, uint64) {
+				o := res
+				switch {
+				case x.Crash != "":
+					o = "crash: " + x.Crash
+				case !done:
+					o = "deadlock"
+				}
+				seen[o] = true
+				return nil, 0
+			}
+			return in
+		}
+		st := e.RunBound(1 << 20)
+		execs += st.Execs
+		if e.EngineErr != "" || !st.Completed {
+			fmt.Printf("LITMUS-ERROR %s: %s\n", p.Name, e.EngineErr)
+			bad++
+			continue
+		}
+		var outs []string
+		for o := range seen {
+			outs = append(outs, o)
+		}
+		sort.Strings(outs)
+		explored[p.Name] = outs
+		al := append([]string{}, p.Allowed...)
+		sort.Strings(al)
+		if strings.Join(outs, "|") != strings.Join(al, "|") {
+			fmt.Printf("LITMUS-MISMATCH %s: explored outcomes %q, allowed %q (%d schedules)\n", p.Name, outs, al, st.Execs)
+			bad++
+		}
+	}
+	b, _ := json.MarshalIndent(explored, "", " ")
+	os.WriteFile(out, b, 0o644)
+	fmt.Printf("litmus explored: %d programs, %d schedules, %d mismatches\n", len(litmus.Programs), execs, bad)
+	if bad > 0 {
+		return 1
+	}
+	return 0
 }
